@@ -46,7 +46,7 @@ def run(ctx):
             return 1
         return 0
     thorough = ctx.tier == "thorough"
-    for dev, fam in (("StringMatch", "param"), ("RecvOfOrigin", "mset"), ("CurrentPkgName", "qual"), ("SharedImports", "qual"), ("OwnPkgLookup", "sealed"), ("PathElemBinds", "qual"), ("DropTypeAfterUnbound", "multi"), ("SuffixMatch", "qual")):
+    for dev, fam in (("StringMatch", "param"), ("RecvOfOrigin", "mset"), ("CurrentPkgName", "qual"), ("SharedImports", "qual"), ("OwnPkgLookup", "sealed"), ("PathElemBinds", "qual"), ("DropTypeAfterUnbound", "multi"), ("SuffixMatch", "qual"), ("ExplicitMethodsOnly", "qual")):
         r = ctx.tlc("Implements", cfg(fam, emit=False, dev='{"%s"}' % dev, live=False), label="c05_dev_" + dev, allow_violation=True, count=False)
         if r["violated"] is None:
             raise vlib.ToolError("deviation %s violates nothing: vacuous" % dev)
